@@ -165,7 +165,7 @@ MDP_LINES = [
     "title\n", "= 5\n", "gen_vel = yes ; c = d\n",
 ]
 MDP_KEYS = ["nsteps", "nst", "dt", "gen_vel", "tc-grps", "", "ref-t"]
-MDP_VALS = [10, 0, "no", 0.002, "a b", "x = y", "", " 5 ", -1]
+MDP_VALS = [10, 0, "no", 0.002, "a b", "x = y", "", " 5 ", -1, 0.0, False, "0"]
 
 
 def mdp_cases(ctx):
@@ -173,7 +173,7 @@ def mdp_cases(ctx):
     cases = []
     # exhaustive small scope: ≤ 3 lines over a 7-line alphabet × final newline × 4 settings
     alpha = ["nsteps = 10\n", "  nst= 1 ; c\n", "; nsteps = 3\n", "\n", "dt=0.1\n", "text\n", "nstepsx = 7\n"]
-    setts = [{}, {"nsteps": 5}, {"dt": 0.5, "nsteps": 5}, {"gen_vel": "no"}, {"nst": "2", "gen_vel": "no", "dt": 1}]
+    setts = [{}, {"nsteps": 0}, {"dt": 0.5, "nsteps": 5}, {"gen_vel": "no"}, {"nst": "2", "gen_vel": False, "dt": 0.0}]
     maxl = 3 if ctx.quick else 4
     for n in range(0, maxl + 1):
         for ls in itertools.product(alpha, repeat=n):
@@ -299,7 +299,7 @@ LMP_LINES = [
 ]
 LMP_KEYS = ["infretis_subcycles", "infretis_timestep", "infretis_nsteps", "infretis_name", "infretis_temperature",
             "infretis_lammpsdata", "infretis_n", "infretis_seed"]
-LMP_VALS = [1, 0.5, 300.0, "/tmp/a b/conf.lammpstrj", "name", 1000, "", "infretis_n", "x infretis_name"]
+LMP_VALS = [1, 0.5, 300.0, "/tmp/a b/conf.lammpstrj", "name", 1000, "", "infretis_n", "x infretis_name", 0, 0.0, False, "0"]
 
 
 def lmp_cases(ctx):
@@ -307,7 +307,7 @@ def lmp_cases(ctx):
     cases = []
     alpha = ["variable a index infretis_a\n", "run infretis_b\n", "# c\n", "infretis_a infretis_b\n",
              "infretis_ab x\n", "\n"]
-    setts = [{}, {"infretis_a": 1}, {"infretis_a": 1, "infretis_b": "two"}, {"infretis_b": 2.5, "infretis_a": "q r"},
+    setts = [{}, {"infretis_a": 0}, {"infretis_a": 1, "infretis_b": "two"}, {"infretis_b": 0.0, "infretis_a": "q r"},
              {"infretis_ab": 3, "infretis_a": 4}]
     maxl = 3 if ctx.quick else 4
     for n in range(0, maxl + 1):
